@@ -1,4 +1,5 @@
 import Driver.Bastion
+import WitnessVerif.Model.StoreProtocol
 import Std.Data.HashSet
 /-
 Concurrency records: `LR` (one request of a concurrent execution with its real-time interval and
@@ -142,6 +143,46 @@ def handleLIN (st : St) (n : Nat) (toks : List String) (reqs : Array LReq) : Res
         if !ok then
           let f := fail st n "C12" s!"the outcomes of one log's requests are not explained by that log's requests alone (case {cname}): requests naming another log changed them"
           st := f.st; outs := outs ++ f.out
+  -- the small-step model of the in-memory store (Model/StoreProtocol.lean, the system `C05_linearizable_inmem`
+  -- is about) replayed on the schedule the implementation actually ran: snapshot at WriteOps, compare-and-set at
+  -- Set; it must predict, per request, acceptance / the refusal verdict / the storage conflict
+  let storeKind := (get "store").getD "?"
+  let oneLog := (reqs.toList.map (·.log)).eraseDups.length == 1
+  if storeKind == "mem" && oneLog && reqs.all (fun r => r.kind == "U") && hung == "0" then
+    let ordToks := (toks.dropWhile (fun t => !t.startsWith "order=")).map (fun t =>
+      ((t.replace "order=" "").replace "[" "").replace "]" "")
+    if !(ordToks.contains "free") then
+      let lg := (reqs[0]!).log
+      let dec (snap : Option Bytes) (i : Nat) : Lin.Dec Bytes String :=
+        match reqs[i]? with
+        | none => .refuse "?"
+        | some r =>
+          let env : Wit.Env := { prev := match snap with | some b => .found b | none => .notFound }
+          let out := Wit.update cfg env r.log r.old r.cp r.proof
+          if out.err == .none then
+            .write (match r.ret with | .val b => b | _ => B.ofString s!"conflicting-write-{i}") "none"
+          else .refuse (errName out.err)
+      let init0 : Option Bytes := match lget init lg with | .val b => some b | _ => none
+      let sys0 : Lin.Sys Bytes String := { store := init0, pcs := List.replicate reqs.size .idle, lin := [] }
+      -- storage calls in the order they were released: W = begin, S = compare-and-set, C closes a refused request
+      let sysF := ordToks.foldl (fun (sy : Lin.Sys Bytes String) tok =>
+        let digits := tok.takeWhile Char.isDigit
+        match digits.toNat? with
+        | none => sy
+        | some i =>
+          let op := (tok.drop digits.length).toString
+          let pending := match sy.pcs[i]? with | some (.done _) => false | _ => true
+          if op == "W" || op == "S" then Lin.stepThread dec (List.range reqs.size) sy i
+          else if op == "C" && pending then Lin.stepThread dec (List.range reqs.size) sy i
+          else sy) sys0
+      let mouts := (List.range reqs.size).map (fun i => match sysF.pcs[i]? with
+        | some (.done (.ok r)) => r | some (.done .storageErr) => "other" | _ => "unfinished")
+      let iouts := reqs.toList.map (·.err)
+      let mfinal : Opt := match sysF.store with | some b => .val b | none => .absent
+      if mouts != iouts || mfinal.show != (lget final lg).show then
+        st := { st with nDiv := st.nDiv + 1 }
+        outs := outs ++ [s!"DIVERGE {n} LIN field=smallstep model={mouts}/{mfinal.show.take 24} impl={iouts}/{(lget final lg).show.take 24}"]
+      else st := st.bump "conc.smallstep.agree"
   -- C01 under concurrency: the checkpoints cosigned for one log in this execution (and the one held before) are
   -- pairwise compatible: equal sizes have equal roots, and with the ground-truth trees known, both lie on one branch
   let cpOf (b : Bytes) : Option (Nat × Bytes) := ((B.splitLast b).bind (fun p => Cp.unmarshal p.1)).map (fun c => (c.size, c.hash))
